@@ -48,6 +48,24 @@ Theorem C26_oversized_key_rejected : forall h sh,
 Proof. exact long_key_rejected. Qed.
 Print Assumptions C26_oversized_key_rejected.
 
+(* A request with several swamp entries (Set, Get) that is answered with a rejection has executed
+   none of its entries, wherever the malformed entry stands, and released the system lock: all
+   entries are validated before the first one is executed. *)
+Theorem C26_rejected_multi_entry_request_has_no_side_effect : forall c h shs,
+  existsb is_reject_ret (run_many c h shs) = true ->
+  existsb is_summon (run_many c h shs) = false /\ existsb is_begin (run_many c h shs) = false /\
+  safeops_delta (run_many c h shs) = 0.
+Proof. exact rejected_many_no_side_effect. Qed.
+Print Assumptions C26_rejected_multi_entry_request_has_no_side_effect.
+
+(* Validating each entry right before executing it does not have this property (witness: a valid
+   entry followed by one with a short swamp name). *)
+Theorem C26_single_pass_validation_refuted :
+  existsb is_reject_ret (run_many_single_pass vcfg_now HSet [ok_shape; short_shape]) = true /\
+  existsb is_summon (run_many_single_pass vcfg_now HSet [ok_shape; short_shape]) = true.
+Proof. exact single_pass_refuted. Qed.
+Print Assumptions C26_single_pass_validation_refuted.
+
 (* The pinned commit: every name-loading handler panicked on a swamp name with fewer than three
    parts, Get on an empty key list; the answer was (nil, nil). Kept as the reason for the fix: commits. *)
 Theorem C26_well_defined_response_refuted_at_pinned_commit :
